@@ -46,6 +46,20 @@ def tlc_trace(module, tracefile, invs, outdir, extra_consts='', spec='Spec'):
         r['error'] = (re.findall(r'^Error: .*', out, re.M) or ['unknown'])[0] + ' :: ' + out[-600:]
     return r
 
+def run_procx(cmd, obs, env):
+    """procx is machinery: when it fails (the build of the server binary, a lost race for ports under load) it is run once more"""
+    p = None
+    for attempt in (1, 2):
+        try:
+            p = subprocess.run(cmd, shell=True, capture_output=True, text=True, timeout=3000, env=env)
+        except subprocess.TimeoutExpired:
+            core.die('procx timed out')
+        if p.returncode == 0 and os.path.exists(obs):
+            return p
+        sys.stderr.write(f'check: procx failed (attempt {attempt}): rc={p.returncode} {p.stderr[-600:]}\n')
+        time.sleep(2)
+    print(p.stdout[-1500:], p.stderr[-1500:]); core.die('procx failed (could the server binary be built?)')
+
 def save_violation(pid, r, regenerate):
     d = f'{V}/run/violations/{pid}-{int(time.time())}-{os.getpid()}'
     os.makedirs(d, exist_ok=True)
@@ -504,12 +518,7 @@ def run_scenarios(pid, tier, seed):
     obs = f'{rundir}/obs.ndjson'
     env = dict(os.environ, VERIF_REPO=os.environ.get('VERIF_REPO', '/repo'))
     cmd = f'{V}/build/procx -build -bin {V}/build/resonate -scenarios {scen} -out {obs} -dir {rundir}/scratch -par 24'
-    try:
-        p = subprocess.run(cmd, shell=True, capture_output=True, text=True, timeout=3000, env=env)
-    except subprocess.TimeoutExpired:
-        core.die('procx timed out')
-    if p.returncode != 0 or not os.path.exists(obs):
-        print(p.stdout[-1500:], p.stderr[-1500:]); core.die('procx failed (could the server binary be built?)')
+    p = run_procx(cmd, obs, env)
     # plumbing: scenario metadata onto the begin events, 32-bit numbers
     out, nsteps, hostile_classes, samples = [], 0, {}, []
     for l in open(obs):
@@ -629,9 +638,7 @@ def front_stage(pid, keep, invs, rundir):
     obs = f'{rundir}/front_obs.ndjson'
     env = dict(os.environ, VERIF_REPO=os.environ.get('VERIF_REPO', '/repo'))
     cmd = f'{V}/build/procx -build -bin {V}/build/resonate -scenarios {scen} -out {obs} -dir {rundir}/fscratch -par 16'
-    p = subprocess.run(cmd, shell=True, capture_output=True, text=True, timeout=3000, env=env)
-    if p.returncode != 0 or not os.path.exists(obs):
-        print(p.stdout[-1500:], p.stderr[-1500:]); core.die('procx failed (could the server binary be built?)')
+    p = run_procx(cmd, obs, env)
     out = []
     for l in open(obs):
         e = json.loads(l)
@@ -674,12 +681,7 @@ def durable_stage(pid, tier, seed, rundir):
     obs = f'{rundir}/durable_obs.ndjson'
     env = dict(os.environ, VERIF_REPO=os.environ.get('VERIF_REPO', '/repo'))
     cmd = f'{V}/build/procx -build -bin {V}/build/resonate -scenarios {scen} -out {obs} -dir {rundir}/dscratch -par 24'
-    try:
-        p = subprocess.run(cmd, shell=True, capture_output=True, text=True, timeout=3000, env=env)
-    except subprocess.TimeoutExpired:
-        core.die('procx timed out')
-    if p.returncode != 0 or not os.path.exists(obs):
-        print(p.stdout[-1500:], p.stderr[-1500:]); core.die('procx failed (could the server binary be built?)')
+    p = run_procx(cmd, obs, env)
     # plumbing: the model step and role of every procx step, the ops onto the begin event
     chunks, cur, count = [], [], 0
     per = max(1, (len(lines) + 7) // 8)
